@@ -21,6 +21,8 @@ type FaultCase struct {
 	Fault    Fault    `json:"fault"`
 	Enforce  string   `json:"enforce"`
 	Schedule Schedule `json:"schedule"`
+	// Retries > 0: the run has mrp's automatic retry enabled (see evalRetry).
+	Retries int `json:"retries,omitempty"`
 }
 
 var faultKinds = []string{"errors-early", "assert-early", "vanish", "exit1", "errors-late",
@@ -71,6 +73,12 @@ func faultExpectation(kind, phase string, split bool, enforce string, nouts int)
 	case "extra-key":
 		if phase == "split" {
 			return "skip"
+		}
+		if nouts == 0 {
+			// a stage that declares no outputs: its _outs is never read;
+			// whether an undeclared key there is an "ill-typed output"
+			// is not decided by the statement
+			return "any"
 		}
 		if enforce == "error" {
 			return "fail"
@@ -226,6 +234,82 @@ func evalFault(c FaultCase, p *progen.Program, ref *progen.RefResult, expect str
 	return out
 }
 
+// evalRetry: automatic retry of transient failures.  The job dies from a
+// signal ("signal: killed" is what the local job manager records; the default
+// retry pattern) on its first Fault.Times attempts.
+//   - times <= retries: the pipestance must complete with the reference
+//     outputs, the failing job runs times+1 times, no other completed job twice
+//   - times  > retries (0 = every attempt): it must end failed naming the stage
+//   - a non-transient failure (error raised by the stage) is never retried
+func evalRetry(c FaultCase, p *progen.Program, ref *progen.RefResult) faultOutcome {
+	var out faultOutcome
+	f := c.Fault
+	res := Run(p, c.Schedule, Options{Enforce: c.Enforce, Fault: &f, MrpPid: 5151, Retries: c.Retries})
+	out.res = res
+	if res.Err != "" {
+		out.viol = append(out.viol, "run error: "+strings.ReplaceAll(res.Err, res.Dir, "<scratch>"))
+		return out
+	}
+	failedPath := ""
+	attempts := map[string]int{}
+	for _, j := range res.Jobs {
+		attempts[j.Key]++
+		if j.Key == f.Job {
+			failedPath = j.Path
+		}
+	}
+	if failedPath == "" {
+		out.class = "fault-site-not-reached"
+		return out
+	}
+	transient := f.Kind == "vanish"
+	recovers := transient && f.Times > 0 && f.Times <= c.Retries
+	out.class = fmt.Sprintf("retry:%s:retried=%d", res.State, res.Retried)
+	if res.Stalled {
+		out.viol = append(out.viol, "pipestance stalled in state "+res.State+" with automatic retry enabled")
+		return out
+	}
+	if !transient && res.Retried > 0 {
+		out.viol = append(out.viol, fmt.Sprintf("a non-transient failure (%s) was answered by %d automatic restart(s)", f.Kind, res.Retried))
+	}
+	if recovers {
+		if res.State != "complete" && res.State != "disabled" {
+			out.viol = append(out.viol, fmt.Sprintf("job %s died from a signal %d time(s) with %d retries allowed, but the pipestance ended %s: %s: %s",
+				f.Job, f.Times, c.Retries, res.State, res.FatalFq, firstLine(res.FatalLog)))
+			return out
+		}
+		if res.TopOuts == nil {
+			out.viol = append(out.viol, "no readable outputs after the automatic retry")
+		} else if d := progen.EqSlack(ref.TopOuts, res.TopOuts, "outs"); d != "" {
+			out.viol = append(out.viol, "outputs after the automatic retry differ from the fault-free result: "+d)
+		}
+		for k, n := range attempts {
+			want := 1
+			if k == f.Job {
+				want = f.Times + 1
+			}
+			if n != want {
+				out.viol = append(out.viol, fmt.Sprintf("job %s was executed %d time(s) in a run with %d transient failure(s) of %s, expected %d", k, n, f.Times, f.Job, want))
+			}
+		}
+		return out
+	}
+	if res.State != "failed" {
+		out.viol = append(out.viol, fmt.Sprintf("job %s kept failing (%s, %d retries allowed) but the pipestance ended %s", f.Job, f.Kind, c.Retries, res.State))
+		return out
+	}
+	wantPrefix := "ID." + Psid + "." + failedPath
+	if !strings.HasPrefix(res.FatalFq, wantPrefix) {
+		out.viol = append(out.viol, fmt.Sprintf("reported failure names %q, the failing stage is %s", res.FatalFq, wantPrefix))
+	}
+	if transient {
+		if want := min(c.Retries, 99) + 1; attempts[f.Job] != want && f.Times == 0 {
+			out.viol = append(out.viol, fmt.Sprintf("job %s failing on every attempt was executed %d time(s) with %d retries allowed, expected %d", f.Job, attempts[f.Job], c.Retries, want))
+		}
+	}
+	return out
+}
+
 func faultSig(v string, c FaultCase, phase string) string {
 	words := strings.Fields(v)
 	for i, w := range words {
@@ -280,6 +364,7 @@ func FaultCheck() {
 			"the oracle requires: state failed (never success, never a hang) where the manifestation is decided to be fatal, reported fqname inside the failing stage, " +
 			"no job of a dependent call (reference dependency closure) started, no error on independent jobs, and after a restart without the fault: completion, " +
 			"outputs equal to the reference, and no re-execution of jobs that had completed. distinct = distinct (shape, job, manifestation, level, schedule); " +
+			"in addition, with mrp's automatic retry (attemptRetry + restart mirrored by the harness): every job dies from a signal on its first 1 / 2 / all attempts with 1 or 2 retries allowed - it must recover exactly when the failures fit the retries, run the failing job once per attempt and nothing else twice, otherwise end failed naming the stage - and a stage-raised error is never retried. "+
 			"non-trivial = the fault site was reached"
 		r.Set("shapes", len(shapes))
 		r.RunWorkers(0)
@@ -318,6 +403,15 @@ func FaultCheck() {
 			if st == nil {
 				continue
 			}
+			// automatic retry: a signal death on the first 1 / 2 / all attempts
+			// with 1 or 2 retries allowed, and a non-transient error with retries
+			for _, rc := range []struct {
+				kind           string
+				times, retries int
+			}{{"vanish", 1, 1}, {"vanish", 1, 2}, {"vanish", 2, 2}, {"vanish", 2, 1}, {"vanish", 0, 2}, {"errors-early", 1, 2}} {
+				items = append(items, item{FaultCase{Shape: sh, Fault: Fault{Job: k, Kind: rc.kind, Times: rc.times}, Enforce: "disable", Retries: rc.retries},
+					p, ref, "retry", phaseOf(k)})
+			}
 			for _, kind := range faultKinds {
 				for _, enf := range []string{"disable", "error"} {
 					exp := faultExpectation(kind, phaseOf(k), st.Split, enf, len(st.Outs))
@@ -341,8 +435,14 @@ func FaultCheck() {
 			break
 		}
 		it := items[idx]
-		o := evalFault(it.c, it.p, it.ref, it.expect)
-		key := fmt.Sprintf("%s|%s|%s|%s|%s", it.c.Shape.Name(), it.c.Fault.Job, it.c.Fault.Kind, it.c.Enforce, it.c.Schedule.String())
+		eval := func() faultOutcome {
+			if it.c.Retries > 0 {
+				return evalRetry(it.c, it.p, it.ref)
+			}
+			return evalFault(it.c, it.p, it.ref, it.expect)
+		}
+		o := eval()
+		key := fmt.Sprintf("%s|%s|%s|%s|%s|r%d.%d", it.c.Shape.Name(), it.c.Fault.Job, it.c.Fault.Kind, it.c.Enforce, it.c.Schedule.String(), it.c.Retries, it.c.Fault.Times)
 		if o.class == "fault-site-not-reached" {
 			r.Eval("")
 			r.Outcome("site-not-reached")
@@ -357,7 +457,7 @@ func FaultCheck() {
 			}
 			continue
 		}
-		o2 := evalFault(it.c, it.p, it.ref, it.expect)
+		o2 := eval()
 		if strings.Join(o2.viol, "\n") != strings.Join(o.viol, "\n") {
 			r.Inconclusive(key + ": non-reproducible: " + o.viol[0])
 			continue
